@@ -477,3 +477,12 @@ def _reg_literal_token(kind):
 
 for _k in ("DecInt", "HexInt", "OctInt", "BinInt"):
     _reg_literal_token(_k)
+
+
+@obligation("C12/no-parse-cache", profiles=("dev",),
+            desc="the crate keeps no mutable global state (no statics with interior mutability, no thread-locals, locks or "
+                 "once-cells in any body outside dig.rs / errors.rs): whether a text is accepted is decided by parsing that text, "
+                 "not by what was parsed before (type-level facts read from the MIR)")
+def no_parse_cache(O):
+    from . import C15
+    C15.no_shared_state_core(O, dri.Rep({"family": "malformed"}, B.dig_battery() + B.malformed_battery(), B.dig_or_malformed_judge))
